@@ -70,6 +70,11 @@ AbsCall(f, op, k, v, ks) ==
     [] op = "badpopdefault" -> [m |-> f, res |-> RTypeErr]
     [] op = "badremove"  -> [m |-> f, res |-> RTypeErr]
     [] op = "baddiscard" -> [m |-> f, res |-> ROk]
+    \* a lookup with a key that cannot be ordered against the stored ones (object keys): the reference sorted map has to
+    \* compare it with a stored key as soon as there is one, and that comparison raises TypeError
+    [] op = "xcontains"  -> [m |-> f, res |-> IF SMDom(f) = {} THEN RV(0) ELSE RTypeErr]
+    [] op = "xget"       -> [m |-> f, res |-> IF SMDom(f) = {} THEN RV(v) ELSE RTypeErr]
+    [] op = "xgetitem"   -> [m |-> f, res |-> IF SMDom(f) = {} THEN RKeyErr ELSE RTypeErr]
 
 \* range queries (C02): the entries whose keys lie in the interval; an omitted
 \* bound (0) is unbounded, an exclusive omitted bound drops the overall
